@@ -93,6 +93,18 @@ def no_absolute_thresholds(F, R, names, rule='G0'):
              'absolute threshold: %s: %s' % bad[0], v.file)
 
 
+def vst_degenerate_select(t):
+    """phi(x == 0 ? .. : ..) (possibly under Some / nested under the readiness phi): the statement's own flat-window case."""
+    from .terms import relation
+    if not (isinstance(t, tuple) and t and t[0] == 'phi'):
+        return False
+    c = t[1]
+    for x in subterms(c):
+        if x[0] == 'op' and x[1] in ('eq', 'ne') and len(x[2]) == 2 and (x[2][1] == lit(0.0) or x[2][0] == lit(0.0)):
+            return True
+    return False
+
+
 def run_c12(F, R):
     R.trust('rustc front end; sfa/vg.py; degree typing rules in sfa/e_typing.py; degree table in sfa/spec.py (from the property)')
     R.assume('real arithmetic for general a > 0; bit-exact for a a power of two; moving averages supplied to EFT/PFE are degree-1 views')
@@ -105,9 +117,11 @@ def run_c12(F, R):
             continue
         dom, tau, out, m = analyse_view(F, v, Degree)
         ok = True
-        for rule, msg, term in dom.complaints:
-            # reviewed exception: Vst's own degenerate case std = 0 -> x (stated in the property) mixes degree 1 into a degree-0 view
-            if n == 'Vst' and rule == 'D-mix' and '[in last]' in msg and '(1 vs 0)' in msg or (n == 'Vst' and rule == 'D-mix' and '[in last]' in msg and '(0 vs 1)' in msg):
+        for (rule, msg, term), raw in zip(dom.complaints, dom.complaint_terms):
+            # reviewed exception: Vst's own degenerate case std = 0 -> x (stated in the property) mixes degree 1 into a degree-0
+            # view. Only that selection is excepted: a phi whose condition tests a value against literal zero for equality.
+            if n == 'Vst' and rule == 'D-mix' and '[in last]' in msg and ('(1 vs 0)' in msg or '(0 vs 1)' in msg) and (
+                    vst_degenerate_select(raw) or msg.startswith(('returns quantities', 'selects between quantities'))):
                 continue
             ok = False
             R.violation(rule, '%s:%s' % (n, _h(term)), '%s: %s' % (msg, term), v.file)
